@@ -93,7 +93,7 @@ func (s *State) getAPIKey(addr, user, pass string, logFH *os.File) (
 	loggedURI := passRE.ReplaceAllString(uri, "${1}xxx$2")
 	errlog.DoLog(logFH, loggedURI)
 	body, err := s.httpGet(uri)
-	keyRE := regexp.MustCompile(`<key>.*</key>`)
+	keyRE := regexp.MustCompile(`(?s)<key>.*</key>`)
 	loggedBody := keyRE.ReplaceAllString(string(body), "<key>xxx</key>")
 	errlog.DoLog(logFH, loggedBody)
 	if err != nil {
